@@ -38,7 +38,8 @@ RULE = (
     "(non-singlet / singlet / valence dispatchers on the (1-4)x(1-2) grid, running and fixed alpha_em), every function of "
     "the unpolarised space-like anomalous-dimension modules as1/as2 and matching modules as1/as2 (found by introspection, "
     "arguments by parameter name); thorough tier adds quad_ker_ad / quad_ker_ome on random (u, label, configuration) and a "
-    "tiny end-to-end solve.  Inputs: N on the solver's Talbot contours (eko.mellin.Path) and off-contour, couplings "
+    "tiny end-to-end solve.  Inputs: N on the solver's Talbot contours (eko.mellin.Path) and off-contour (box Re N in [-6,40], "
+    "|Im N| <= 40, at least 0.25 away from the poles at the integers <= 1 when |Im N| < 0.5), couplings "
     "log-uniform in [0.002,0.05], random complex gamma towers |gamma_k| <= 10^(k+1), jittered log grids.  Oracle: same "
     "structure and shape; integers / booleans identical; floats within 1e-12 of the largest modulus of the same array; an "
     "exception on one side only, a numba compile/typing error, or a crash of the compiled worker is a violation.  "
@@ -57,9 +58,10 @@ ASSUMPTIONS = [
     "arguments are passed in the types production passes them (order tuples of ints, ndarray towers, Python lists for "
     "beta vectors - numba 'reflected lists')",
     "quad_ker_ad / quad_ker_ome and the end-to-end solve (9 min cold compile each) are exercised in the thorough tier only; "
-    "their tolerance is 1e-10 (relative to the value, solve: relative to max(1, largest operator entry)) because the "
-    "kernel is the real part of a complex product (cancellation against an invisible modulus; measured worst 1.1e-13 on "
-    "300 points) and the solve feeds it through adaptive quadrature",
+    "their tolerance is 1e-10 relative to max(|value|, |Mellin-inversion factor QuadKerBase.integrand|) (solve: relative to "
+    "max(1, largest operator entry)) because the kernel is the real part of factor x kernel element (cancellation against "
+    "a modulus not visible in the result: 1.6e-2 relative noise observed on a value of 4e-21) and the solve feeds it "
+    "through adaptive quadrature; the factor itself is compared at 1e-12",
 ]
 LEVEL_TEXT = (
     "Generated-input differential between the compiled and the interpreted execution of the same sources, covering every "
@@ -71,9 +73,11 @@ TOL = 1e-12
 # cancellations between O(1) terms (a Lagrange basis polynomial at a foreign node, harmonic-sum combinations at large N)
 SCALE_FLOOR = {"interpolation": 1.0, "harmonics": 1.0, "ad_as12": 1.0, "ome_as12": 1.0, "qcd_kernels": 1.0, "qed_kernels": 1.0,
                "solve": 1.0}
-# The integration kernels return the REAL PART of a product of complex factors of very different magnitude (x^-N basis
-# function, Jacobian, kernel element): the result can be 10-100 times smaller than the modulus it was cancelled from and
-# no intermediate scale is visible from outside.  The end-to-end solve passes these values through adaptive quadrature.
+# The integration kernels return the REAL PART of (Mellin-inversion factor x kernel element): the result can be orders of
+# magnitude below the modulus it was cancelled from (measured: 1.6e-2 relative noise on a value of 4e-21).  The callers
+# therefore also return the complex factor (QuadKerBase.integrand) and the kernel value is compared relative to
+# max(|value|, |factor|); the kernel element's own magnitude (O(1)..O(100)) is not visible from outside, hence 1e-10.
+# The end-to-end solve passes these values through adaptive quadrature.
 TOL_GROUP = {"quad_ker_ad": 1e-10, "quad_ker_ome": 1e-10, "solve": 1e-10}
 QUICK_GROUPS = ("qcd_kernels", "ome_as12", "ad_as12", "qed_kernels", "harmonics", "scale_variations", "couplings", "interpolation")
 THOROUGH_GROUPS = ("quad_ker_ad", "quad_ker_ome", "solve") + QUICK_GROUPS
@@ -233,7 +237,7 @@ def unit():
 
 
 def st_n(singlet=None):
-    """Mellin moment [re, im]: solver contours (t in [0.5,0.95]) or a box, >= 0.1 away from the integers <= 1."""
+    """Mellin moment [re, im]: solver contours (t in [0.5,0.95]) or a box, >= 0.25 away from the integers <= 1."""
     st = _st()
     from eko import mellin
 
@@ -242,8 +246,10 @@ def st_n(singlet=None):
         return [n.real, n.imag]
 
     def box(re, frac, im):
-        if re < 1.2:
-            re = math.floor(re) + 0.1 + 0.8 * frac
+        if re < 1.2 and abs(im) < 0.5:
+            # near the real axis keep 0.25 away from the poles at the integers <= 1: rounding is amplified by 1/d^k there
+            # (observed 4e-12 at d = 0.1), and the solver's contours stay >= 0.6 away from them
+            re = math.floor(re) + 0.25 + 0.5 * frac
         return [re, im]
 
     sing = st.booleans() if singlet is None else st.just(bool(singlet))
@@ -904,14 +910,16 @@ def call_quad_ker(fn, a):
             use_fhmruvv=bool(a["fhmruvv"]),
         )
         vals["Lsv"] = vals["L"]
-        return quad_ker.quad_ker_ad(*[vals[p] for p in params])
+        factor = quad_ker.QuadKerBase(vals["u"], vals["is_log"], logx, vals["mode0"]).integrand(areas)
+        return (quad_ker.quad_ker_ad(*[vals[p] for p in params]), complex(factor))
     params = list(inspect.signature(getattr(quad_ker.quad_ker_ome, "py_func", quad_ker.quad_ker_ome)).parameters)
     vals = dict(
         u=float(a["u"]), order=order, mode0=int(a["label"][0]), mode1=int(a["label"][1]), is_log=bool(a["log"]), logx=logx,
         areas=areas, a_s=float(a["a_s"]), nf=int(a["nf"]), L=float(a["L"]), sv_mode=int(a["sv"]), Lsv=float(a["Lsv"]),
         backward_method=int(a["backward"]), is_msbar=bool(a["msbar"]), is_polarized=bool(a["pol"]), is_time_like=bool(a["tl"]),
     )
-    return quad_ker.quad_ker_ome(*[vals[p] for p in params])
+    factor = quad_ker.QuadKerBase(vals["u"], vals["is_log"], logx, vals["mode0"]).integrand(areas)
+    return (quad_ker.quad_ker_ome(*[vals[p] for p in params]), complex(factor))
 
 
 def strat_solve(tier):
@@ -1086,7 +1094,14 @@ def judge(case, ra, rb):
             + "; interpreted " + (f"raised {eb}: {rb['msg'][:300]}" if eb else "returned a value"),
         )
         return res
-    diffs = compare(ra["ok"], rb["ok"], floor=SCALE_FLOOR.get(g, 0.0), tol=TOL_GROUP.get(g, TOL))
+    if g in ("quad_ker_ad", "quad_ker_ome") and rb["ok"]["k"] == "t" and ra["ok"]["k"] == "t" and len(ra["ok"]["v"]) == 2:
+        # (kernel value, Mellin-inversion factor): the value is Re(factor * kernel element) - its natural scale is the
+        # modulus of the factor (kernel elements are O(1) or larger), not the possibly cancelled real part
+        modulus = float(np.max(np.abs(_num(rb["ok"]["v"][1])[1])))
+        diffs = compare(ra["ok"]["v"][0], rb["ok"]["v"][0], "kernel", floor=modulus, tol=TOL_GROUP[g])
+        diffs += compare(ra["ok"]["v"][1], rb["ok"]["v"][1], "integrand-factor", floor=0.0, tol=TOL)
+    else:
+        diffs = compare(ra["ok"], rb["ok"], floor=SCALE_FLOOR.get(g, 0.0), tol=TOL_GROUP.get(g, TOL))
     res.nontrivial = is_float_result(rb["ok"])
     for kind, msg in diffs[:3]:
         res.fail(f"{ID}/{kind}/{g}/{fn}", f"{what}: {msg}")
